@@ -133,7 +133,7 @@ pub struct Lineage {
     pub ops: Vec<Op>,
 }
 
-fn open_json(r: &OpenResult) -> Value {
+pub fn open_json(r: &OpenResult) -> Value {
     match r {
         OpenResult::Ok => json!({"t":"ok"}),
         OpenResult::Empty => json!({"t":"empty"}),
@@ -695,7 +695,7 @@ pub fn journal_classes(jops: &[JOp]) -> Value {
 /// operations of all earlier phases.  (A phase may be empty in the real call - an empty core has
 /// no page or node to flush - so the position is found by phase order, not by looking for an
 /// operation of that very class.)
-fn prefix_for_pc(jops: &[JOp], pc: &str) -> usize {
+pub fn prefix_for_pc(jops: &[JOp], pc: &str) -> usize {
     fn rank(c: &str) -> usize {
         match c {
             "a_data" => 0,
@@ -837,7 +837,7 @@ pub fn run_replay(args: &[String]) {
             continue;
         }
         let hist: Value = serde_json::from_str(line).unwrap();
-        let gen = json!({"drv":"abs","args":format!("replay --in {input} --faults {faults} --only {n}")});
+        let gen = json!({"drv":"abs","hist":hist.clone(),"args":format!("replay --in {input} --faults {faults} --only {n}")});
         d.behaviour(&hist, &fc, gen);
     }
     rec.finish();
